@@ -187,8 +187,12 @@ Definition mstep22 (c : cfg) (m : mon22) (o : lop) (r : lout) : verdict * mon22 
                 if has_adv22 it then
                   if closed_with it 8 && negb lost then (Bad 3, m) else (Ok, idle22)
                 else if match changed_details it with Some _ => true | None => false end then
-                  (* the instant of an update fell on a missed event *)
-                  (Ok, mk22 PBlind false (p_interval m) (p_latency m) (p_timeout m) (p_a m) 0 0 0 0 [])
+                  (* the instant of an update fell on a missed event: the new parameters apply, the window is not judged *)
+                  match match changed_details it with Some d => applied_update (p_upd m) d | None => None end with
+                  | Some (wsz, woff, ivl, lat, tmo) =>
+                      (Ok, mk22 PBlind false (ivl * 1250) lat (tmo * 10000) (p_a m) (woff * 1250) (wsz * 1250) 0 0 [])
+                  | None => (Ok, mk22 PBlind false (p_interval m) (p_latency m) (p_timeout m) (p_a m) 0 0 0 0 [])
+                  end
                 else if lost then (Bad 4, m)
                 else
                   match find_ce it with
